@@ -73,9 +73,6 @@ func waitAll(wg *sync.WaitGroup, d time.Duration) bool {
 	}
 }
 
-// stableWords: the leader generates 4096, then 8192 triples per batch while
-// the pool holds <= 4096 words; it stops at 64 + 32*128 = 4160 words.
-const stableWords = 4160
 
 func runSession(cfg *sessCfg) *sessOut {
 	c := cfg.pc.circ
@@ -202,22 +199,33 @@ func runSession(cfg *sessCfg) *sessOut {
 				return so
 			}
 		}
-		// wait until the offline phase has filled every pool to its stable level
+		// wait until the offline phase has filled every pool to its stable
+		// level: the leader stops generating once its pool holds more than
+		// lowWaterMark (4096) words; all pools equal and unchanged over
+		// three polls
+		last, same := -1, 0
 		for {
-			ok := true
-			for p := 0; p < n; p++ {
-				if so.nws[p].Pool.VerifWords() != stableWords {
+			w0 := so.nws[0].Pool.VerifWords()
+			ok := w0 > 4096
+			for p := 1; p < n; p++ {
+				if so.nws[p].Pool.VerifWords() != w0 {
 					ok = false
 				}
 			}
-			if ok {
+			if ok && w0 == last {
+				same++
+			} else {
+				same = 0
+			}
+			last = w0
+			if ok && same >= 3 {
 				break
 			}
 			if time.Now().After(end) {
 				so.timeout = "pool-fill"
 				return so
 			}
-			time.Sleep(2 * time.Millisecond)
+			time.Sleep(3 * time.Millisecond)
 		}
 		for p := 0; p < n; p++ {
 			so.snaps[p] = so.nws[p].Pool.VerifSnapshot()
